@@ -654,7 +654,7 @@ main(int argc, char **argv)
 		          fprintf(mxfp, "%5d  %5d  %-30s  %-30s  %.5f\n", i, j, msa->sqname[i], msa->sqname[j], 1. - D->mx[i][j]);
 	          }
 	        }	  
-	        fclose(mxfp);
+	        /* mxfp is closed once, after the last alignment (below) */
 	      }
 	      if((status = MSADivide(msa, D, do_cmindiff, do_ctarget_nc, do_ctarget_nsize, mindiff, nc, nsize, &nmsa, &cmsa, &xsize, errbuf)) != eslOK) esl_fatal("%s", errbuf);
 	      esl_msa_Destroy(msa); 
